@@ -413,6 +413,8 @@ PROC_CLASS_PRED = {
     "sighandler": ("swallow", 0), "sigign": ("swallow", 0),
     # main_thread_only worker, a sleeping body, two further remote_execs (a refused one and its retry) before the end
     "mto-retry": ("sleeping", 300),
+    # a sleeping body with a left-over callback of a dropped channel / with 12 000 unread items in its queue
+    "cb-dropped": ("sleeping", 300), "backlog": ("sleeping", 300),
     "transfer-in": ("blocked", 0), "transfer-out": ("blocked", 0),
 }
 
@@ -430,13 +432,15 @@ def gen_process_cases(ctx, rng):
             # main_thread_only: overlapping remote_execs were refused before the initiator went away — the receiver thread
             # must still be reading (and see the EOF)
             ("popen", "mto-retry", "mid-exec", "kill"),
+            ("popen", "cb-dropped", "mid-exec", "kill"), ("popen", "backlog", "mid-exec", "_exit"),
         ]
         for topo, cls, moment, mode in base:
             cases.append(dict(topo=topo, cls=cls, moment=moment, mode=mode, delay=round(rng.uniform(0.0, 0.3), 3)))
         return cases
     topos = ["popen", "via", "socket"] * (3 if ctx.thorough else 1)   # thorough: three draws of delays / skipped modes
     classes = ["idle", "blocked", "sleep-short", "sleep-long", "busy", "swallow", "extra0", "extra1", "sighandler", "sigign"]
-    cases += [dict(topo="popen", cls="mto-retry", moment="mid-exec", mode=m, delay=round(rng.uniform(0.0, 0.5), 3)) for m in ("kill", "_exit")]
+    cases += [dict(topo="popen", cls=c, moment="mid-exec", mode=m, delay=round(rng.uniform(0.0, 0.5), 3))
+              for c in ("mto-retry", "cb-dropped", "backlog") for m in ("kill", "_exit")]
     for topo in topos:
         for cls in classes:
             for mode in ("kill", "_exit", "close", "exit"):
